@@ -40,6 +40,7 @@ mod util;
 mod mon_board;
 mod mon_draws;
 mod mon_fen;
+mod mon_miri;
 mod mon_picker;
 mod mon_pos;
 mod mon_search;
@@ -62,7 +63,11 @@ fn main() {
         v: argv[2..].to_vec(),
     };
     let seed = args.u64("--seed", 1);
-    let tier = args.str("--tier", "quick");
+    // a stage may size its workload like another tier (e.g. sanitizer builds in the thorough tier)
+    let tier = match args.get("--tier-override") {
+        Some(t) => t.to_string(),
+        None => args.str("--tier", "quick"),
+    };
     let out = args.get("--out").map(|s| s.to_string());
 
     util::install_panic_hook();
@@ -142,6 +147,14 @@ fn main() {
         "c14" => {
             init();
             mon_time::run(&args, seed, &tier, &report)
+        }
+        "miri-c01" => {
+            init();
+            mon_miri::run("c01", &args, &report)
+        }
+        "miri-c02" => {
+            init();
+            mon_miri::run("c02", &args, &report)
         }
         _ => {
             eprintln!("unknown mode {mode}");
